@@ -59,7 +59,11 @@ fn triple_case(g: &mut Gen, cfg: &PicCfg) -> Verdict {
     } else {
         let kind = *g.pick(kinds);
         let inter = have_ref && g.bool();
-        let tr = g.byte();
+        // the failing picture often carries the temporal reference of the most recent picture
+        let tr = match hist.last() {
+            Some(p) if g.chance(1, 3) => p.hdr.tr,
+            _ => g.byte(),
+        };
         (bad_picture(g, cfg, &like, kind, inter, tr), kind.label(), kind.depth())
     };
     // the continuation: one or two valid pictures
@@ -93,8 +97,9 @@ fn triple_case(g: &mut Gen, cfg: &PicCfg) -> Verdict {
     });
     labels.push(if have_ref { "after accepted pictures" } else { "on a fresh decoder" });
 
-    let mut a = H263State::new(options(mode, false));
-    let mut b = H263State::new(options(mode, false));
+    let scal = g.bool();
+    let mut a = H263State::new(options_scal(mode, scal));
+    let mut b = H263State::new(options_scal(mode, scal));
     // twin B: history only
     for hb in &hist_bytes {
         if !decode_bytes(&mut b, hb).is_ok() {
@@ -210,12 +215,13 @@ fn split_case(g: &mut Gen, cfg: &PicCfg) -> Verdict {
         (vec![], ipic.clone())
     };
     let y = gen_inter_pic(g, cfg, &like, PicType::P, false);
+    let scal = g.bool();
     let hb: Vec<Vec<u8>> = hist.iter().map(encode_pic).collect();
     let xb = encode_pic(&x);
     let yb = encode_pic(&y);
     g.describe(|| json!({"mode": mode_label(&like), "size": format!("{:?}", size), "picture": describe_pic(&x), "split_points": xb.len() - 1}));
     let prime = || -> Result<H263State, String> {
-        let mut s = H263State::new(options(mode, false));
+        let mut s = H263State::new(options_scal(mode, scal));
         for b in &hb {
             let o = decode_bytes(&mut s, b);
             if !o.is_ok() {
@@ -299,10 +305,152 @@ fn split_case(g: &mut Gen, cfg: &PicCfg) -> Verdict {
     Verdict::pass_l(eof_failures > 0, fnv64(&whole), labels)
 }
 
+/// One picture made very long by MCBPC stuffing (tens of kilobytes up to > 128 KiB) that fails at
+/// its very end (invalid INTRADC) or is cut short there: the failed call must still restore the
+/// reader to the start of the picture and change nothing, and a retry after the missing data has
+/// been appended must succeed.
+fn large_failure_case(g: &mut Gen) -> Verdict {
+    let (mode, version) = *g.pick(&[(Mode::Sorenson, 0u8), (Mode::Sorenson, 1), (Mode::Standard, 0)]);
+    let size = if mode == Mode::Sorenson { Size::Custom8(32, 16) } else { Size::Sqcif };
+    let n_stuff = *g.pick(&[2_000usize, 15_000, 16_500, 40_000, 59_000, 66_000, 130_000]);
+    let with_history = g.bool();
+    let inter = with_history && g.bool();
+    let variant = g.below(3); // 0 invalid INTRADC at the end, 1 cut inside the last block, 2 valid (control)
+    let scal = g.bool();
+    let like = match mode {
+        Mode::Sorenson => Header::sorenson(version, PicType::I, size, 6),
+        Mode::Standard => Header::standard(PicType::I, size, 6),
+    };
+    let ipic = {
+        let cfg = PicCfg { budget: 200, ..split_cfg() };
+        gen_intra_pic_with(g, &cfg, mode, version, size)
+    };
+    // the long picture
+    let mut hdr = like.clone();
+    hdr.ptype = if inter { PicType::P } else { PicType::I };
+    hdr.tr = g.byte();
+    hdr.quant = 6;
+    let (mbw, mbh) = hdr.mb_dims().unwrap();
+    let total = mbw * mbh;
+    let mut w = crate::bits::BitWriter::new();
+    encode_header(&hdr, &mut w);
+    let mut one = crate::bits::BitWriter::new();
+    if inter {
+        one.put_bit(false);
+    }
+    one.put_code("000000001");
+    let at = g.below(total as u32) as usize; // stuffing sits in front of this macroblock
+    let mut mbs = Vec::new();
+    for n in 0..total {
+        let mut mb = Mb::new(MbKind::Intra);
+        for b in 0..6 {
+            mb.blocks[b].dc = 50 + ((n * 6 + b) % 150) as u8;
+            if mb.blocks[b].dc == 128 {
+                mb.blocks[b].dc = 127;
+            }
+        }
+        mb.blocks[5].events = vec![Event { run: 2, level: 33, force_escape: true, wide: false }];
+        mbs.push(mb);
+    }
+    if variant == 0 {
+        mbs[total - 1].blocks[4].dc = 0;
+    }
+    for (n, mb) in mbs.iter().enumerate() {
+        if n == at {
+            for _ in 0..n_stuff {
+                w.bits.extend_from_slice(&one.bits);
+            }
+        }
+        encode_mb(mb, &hdr, &mut w);
+    }
+    let full_bits = w.len();
+    let full = w.to_bytes();
+    let data: Vec<u8> = if variant == 1 { full[..((full_bits - 1) / 8)].to_vec() } else { full.clone() };
+    let variant_name = ["invalid INTRADC in the last macroblock", "cut inside the last block", "valid (control)"][variant as usize];
+    let carrier = if inter { "P" } else { "I" };
+    g.describe(|| json!({"mode": mode_label(&like), "stuffing_codewords": n_stuff, "picture_bytes": data.len(), "carrier": carrier, "variant": variant_name, "after_history": with_history}));
+    let mut st = H263State::new(options_scal(mode, scal));
+    let mut twin = H263State::new(options_scal(mode, scal));
+    let src = Growable::new();
+    let mut r = H263Reader::from_source(src.clone());
+    let mut pos_bits = 0usize;
+    let mut all: Vec<u8> = Vec::new();
+    if with_history {
+        let ib = encode_pic(&ipic);
+        src.push(&ib);
+        all.extend_from_slice(&ib);
+        if !decode_call(&mut st, &mut r).is_ok() || !decode_bytes(&mut twin, &ib).is_ok() {
+            return Verdict::fail("valid history picture not decoded");
+        }
+        pos_bits = encode_pic_bits(&ipic).len();
+    }
+    src.push(&data);
+    all.extend_from_slice(&data);
+    let before = last_digest(&st);
+    let o = decode_call(&mut st, &mut r);
+    let labels: Labels = vec![mode_label(&like), ["large picture: invalid INTRADC at the end", "large picture: cut inside the last block", "large picture: valid"][variant as usize]];
+    let key = fnv64(&data) ^ ((n_stuff as u64) << 20) ^ with_history as u64;
+    if variant == 2 {
+        return match o {
+            Outcome::Ok => Verdict::pass_l(false, key, labels),
+            o => Verdict::fail(format!("valid picture with {} stuffing codewords ({} bytes) not decoded: {}", n_stuff, data.len(), o.short())),
+        };
+    }
+    match o {
+        Outcome::Err(_) => {}
+        o => return Verdict::fail(format!("picture that must fail at its end gave {}", o.short())),
+    }
+    if last_digest(&st) != before {
+        return Verdict::fail("failed call on a large picture changed the most recent picture");
+    }
+    if variant == 1 {
+        // retry after the missing tail (and a following picture) has arrived
+        let y = {
+            let mut h2 = like.clone();
+            h2.ptype = PicType::P;
+            h2.tr = 77;
+            Pic { hdr: h2, mbs: vec![Mb::not_coded(); total], trailing_zero_bits: 0 }
+        };
+        src.push(&full[data.len()..]);
+        src.push(&encode_pic(&y));
+        let o2 = decode_call(&mut st, &mut r);
+        let d2 = last_digest(&st);
+        let ot = decode_bytes(&mut twin, &full);
+        if !o2.is_ok() || !ot.is_ok() || d2 != last_digest(&twin) {
+            return Verdict::fail(format!(
+                "picture of {} bytes delivered as {} + {} bytes: the repeated call gave {} / {:016x}, all-at-once decoding gives {} / {:016x}",
+                full.len(), data.len(), full.len() - data.len(), o2.short(), d2, ot.short(), last_digest(&twin)
+            ));
+        }
+        let o3 = decode_call(&mut st, &mut r);
+        let ot3 = decode_bytes(&mut twin, &encode_pic(&y));
+        if o3 != ot3 || last_digest(&st) != last_digest(&twin) {
+            return Verdict::fail(format!("the picture after a large split picture gave {}, all-at-once decoding gives {}", o3.short(), ot3.short()));
+        }
+        return Verdict::pass_l(true, key, labels);
+    }
+    // variant 0: the reader must re-deliver everything from the start of the failed picture
+    let rest = drain_bits(&mut r);
+    let want = &bytes_to_bits(&all)[pos_bits..];
+    if rest != want {
+        return Verdict::fail(format!(
+            "after a failed call on a {}-byte picture the reader re-delivers {} bits, expected {} (from the picture's first bit at stream bit {})",
+            data.len(), rest.len(), want.len(), pos_bits
+        ));
+    }
+    // and a valid picture decodes as on a twin that never saw the failure
+    let v = encode_pic(&Pic { hdr: Header { ptype: PicType::I, ..like.clone() }, mbs: ipic.mbs.clone(), trailing_zero_bits: 0 });
+    let (oa, ob) = (decode_bytes(&mut st, &v), decode_bytes(&mut twin, &v));
+    if oa != ob || last_digest(&st) != last_digest(&twin) {
+        return Verdict::fail(format!("valid picture after the failed large picture: {} vs twin {}", oa.short(), ob.short()));
+    }
+    Verdict::pass_l(true, key, labels)
+}
+
 pub fn cfg_for(tier: Tier) -> PicCfg {
     match tier {
-        Tier::Quick => PicCfg { max_dim: 64, max_fixed_mbs: 48, budget: 600, extreme_aspect: false, ..PicCfg::quick() },
-        Tier::Thorough => PicCfg { max_dim: 128, max_fixed_mbs: 99, budget: 700, extreme_aspect: false, ..PicCfg::thorough() },
+        Tier::Quick => PicCfg { max_dim: 64, max_fixed_mbs: 396, budget: 600, extreme_aspect: false, ..PicCfg::quick() },
+        Tier::Thorough => PicCfg { max_dim: 128, max_fixed_mbs: 396, budget: 700, extreme_aspect: false, ..PicCfg::thorough() },
     }
 }
 
@@ -318,6 +466,8 @@ pub fn run(ctx: &Ctx) -> i32 {
     let scases = ctx.tier.pick(600u64, 10_000u64);
     let scfg = split_cfg();
     reports.push(tape_suite(ctx, "all_split_points", scases, 2048, &move |g| split_case(g, &scfg)));
+    let lcases = ctx.tier.pick(400u64, 4_000u64);
+    reports.push(tape_suite(ctx, "large_failing_pictures", lcases, 512, &large_failure_case));
     finish(
         ctx,
         reports,
@@ -336,6 +486,7 @@ pub fn replay(suite: &str, case: &Value) -> Option<Verdict> {
     match suite {
         "history_failure_continuation" => Some(triple_case(&mut Gen::new(&tape), &cfg_for(tier))),
         "all_split_points" => Some(split_case(&mut Gen::new(&tape), &split_cfg())),
+        "large_failing_pictures" => Some(large_failure_case(&mut Gen::new(&tape))),
         _ => None,
     }
 }
